@@ -56,6 +56,8 @@ def main(argv=None):
         prop, units, tier, seed, jobs=args.jobs, unit_timeout=mod.unit_timeout(tier),
         extra_env=extra_env, budget_s=getattr(mod, "BUDGET", {}).get(tier),
     )
+    if hasattr(mod, "postprocess"):
+        results = results + list(mod.postprocess(units, results, tier, seed))
     extra_cov = mod.extra_coverage(results, tier, seed) if hasattr(mod, "extra_coverage") else None
     code = verdict.finish(mod, units, results, tier, seed, t0, extra_cov=extra_cov,
                           reach_spec=getattr(mod, "REACH_SPEC", None))
